@@ -147,3 +147,12 @@ func (v *VerifPQ) Snapshot(of []int) (ids, prios, idx []int) {
 	}
 	return
 }
+
+// VerifBWG exposes barWaitGroup (bar_wait_group.go), the counter
+// (*Progress).Wait blocks on, to the differential "wg" family.
+type VerifBWG struct{ g barWaitGroup }
+
+func NewVerifBWG() *VerifBWG      { return &VerifBWG{} }
+func (v *VerifBWG) Add(delta int) { v.g.Add(delta) }
+func (v *VerifBWG) Done()         { v.g.Done() }
+func (v *VerifBWG) Wait()         { v.g.Wait() }
